@@ -183,17 +183,57 @@ func hxTok(s string) string {
 // behind when state is carried between calls: a loop that fails after it has produced output, a
 // render refused for an unsupported value after valid keys, assignments without data, a source
 // that does not parse (twice).  Run before every request.
+var poisonTurn int
+
+// cycleCount is the memory of custom string function number 4
+var cycleCount int
+
+// the calls whose leftovers would show when state is carried from one call to the next; each is a
+// complete, independent use of the API
+var poisons = []func(){
+	func() {
+		textwire.EvaluateString("P@each(v in [1, 2, 3])<{{ v }}>@if(v == 2){{ nosuchPoison }}@end@end", nil)
+	},
+	func() {
+		textwire.EvaluateString("P@for(i = 0; i < 3; i++)[{{ i }}]@if(i == 1){{ 1 / 0 }}@end@end", nil)
+	},
+	func() { textwire.EvaluateString("{{ poisonVar = 1 }}{{ x = \"s\" }}{{ poisonVar }}", nil) },
+	func() { textwire.EvaluateString("{{ 1 + }}", nil); textwire.EvaluateString("{{ 1 + }}", nil) },
+	func() { textwire.EvaluateString("{{ v = 2.5 }}{{ n = \"s\" }}", map[string]any{}) },
+	// templates rejected while the lexer / parser is inside a directive, a string, a comment, a block, a call
+	func() { textwire.EvaluateString("<p>@if</p>", nil) },
+	func() { textwire.EvaluateString("@each(", nil) },
+	func() { textwire.EvaluateString("a{{ \"unterminated", nil) },
+	func() { textwire.EvaluateString("b{{-- open", nil) },
+	func() { textwire.EvaluateString("@component(\"c\", {a: ", nil) },
+	func() { textwire.EvaluateString("@if(true)open{{ (1 + ", nil) },
+	func() { textwire.EvaluateString("{{ [1, [2, ", nil) },
+	// a loop that fails in its post statement, nested loops that succeed, strings with escapes, a dump
+	func() { textwire.EvaluateString("@for(i = 0; i < 3; i.str())x@end", nil) },
+	func() {
+		textwire.EvaluateString("@each(v in [1, 2])@each(w in [3, 4])[{{ v }}{{ w }}]@end@end@for(i = 0; i < 2; i++)@for(j = 0; j < 2; j++){{ i }}{{ j }}@end@end", nil)
+	},
+	func() { textwire.EvaluateString("{{ \"say \\\"hi\\\"\" }} and {{ 'it\\'s' }}", nil) },
+	func() { textwire.EvaluateString("@dump([1, {a: \"s\"}], 2.5, nil)", nil) },
+	// a refused data map: whatever was converted before the unsupported value
+	func() {
+		textwire.EvaluateString("{{ aPoison }}", map[string]any{"aPoison": "x", "who": 1.5, "d": "stale", "x": true, "v": "s", "n": "s", "flag": "s",
+			"items": 1, "obj": 1, "r": 1, "xs": "s", "t": 1.5, "name": 7, "zPoison": make(chan int)})
+	},
+}
+
+// poison runs all of them before every request, each time starting one further, so that every one of
+// them is the last call before some request
 func poison() {
 	defer func() { _ = recover() }()
-	textwire.EvaluateString("P@each(v in [1, 2, 3])<{{ v }}>@if(v == 2){{ nosuchPoison }}@end@end", nil)
-	textwire.EvaluateString("P@for(i = 0; i < 3; i++)[{{ i }}]@if(i == 1){{ 1 / 0 }}@end@end", nil)
-	textwire.EvaluateString("{{ poisonVar = 1 }}{{ x = \"s\" }}{{ poisonVar }}", nil)
-	textwire.EvaluateString("{{ 1 + }}", nil)
-	textwire.EvaluateString("{{ 1 + }}", nil)
-	textwire.EvaluateString("{{ v = 2.5 }}{{ n = \"s\" }}", map[string]any{})
-	// last, so that nothing after it tidies up what a refused render leaves behind
-	textwire.EvaluateString("{{ aPoison }}", map[string]any{"aPoison": "x", "who": 1.5, "d": "stale", "x": true, "v": "s", "n": "s", "flag": "s",
-		"items": 1, "obj": 1, "r": 1, "xs": "s", "t": 1.5, "name": 7, "zPoison": make(chan int)})
+	n := len(poisons)
+	poisonTurn++
+	for k := 0; k < n; k++ {
+		func() {
+			defer func() { _ = recover() }()
+			poisons[(poisonTurn+k)%n]()
+		}()
+	}
 }
 
 func implEval(src string, data *GV) string {
@@ -210,7 +250,8 @@ func implEvalOnce(src string, data *GV) string {
 	dm := data.DataMap()
 	out, err := textwire.EvaluateString(src, dm)
 	// the caller's data is never modified by rendering
-	if !data.hasOther() && !reflect.DeepEqual(dm, data.DataMap()) {
+	if !data.hasOther() && !reflect.DeepEqual(dm, data.DataMap()) && fmt.Sprintf("%#v", dm) != fmt.Sprintf("%#v", data.DataMap()) {
+		// (a NaN is not equal to itself: the printed forms decide then)
 		return "MUTATED the data map was modified by the render"
 	}
 	if err != nil {
@@ -286,6 +327,42 @@ func register(ty, name string, fid int) error {
 	case "str":
 		if fid == 0 {
 			return textwire.RegisterStrFunc(name, func(s string, args ...any) string { return s + "|" + descList(args) })
+		}
+		if fid == 5 {
+			// looks at its first argument and scribbles over it afterwards (the argument is the function's own copy)
+			return textwire.RegisterStrFunc(name, func(s string, args ...any) string {
+				if len(args) == 0 {
+					return "none"
+				}
+				switch a := args[0].(type) {
+				case []any:
+					if len(a) == 0 {
+						return "none"
+					}
+					head := descOf(a[0])
+					a[0] = "gone"
+					sort.Slice(a, func(i, j int) bool { return descOf(a[i]) > descOf(a[j]) })
+					return head
+				case map[string]any:
+					n := len(a)
+					for k := range a {
+						delete(a, k)
+					}
+					a["added"] = 1
+					return strconv.Itoa(n)
+				}
+				return "none"
+			})
+		}
+		if fid == 4 {
+			// a function with a memory: "odd", "even", "odd", … (counted from the start of the history)
+			return textwire.RegisterStrFunc(name, func(s string, args ...any) string {
+				cycleCount++
+				if cycleCount%2 == 1 {
+					return "odd"
+				}
+				return "even"
+			})
 		}
 		return textwire.RegisterStrFunc(name, func(s string, args ...any) string { return "const" })
 	case "arr":
@@ -363,12 +440,16 @@ func implHist(cwd string, fsT *term, ops []string, home string) string {
 		case "x":
 			os.MkdirAll(filepath.Dir(p), 0o755)
 			os.Symlink("/nonexistent/verif-dangling", p)
+		case "l":
+			os.MkdirAll(filepath.Dir(p), 0o755)
+			os.Symlink(filepath.Join(cwd, unhx(e.list[2].atom)), p)
 		}
 	}
 	if err := os.Chdir(cwd); err != nil {
 		return "HARNESSERR " + err.Error()
 	}
 	textwire.VerifReset()
+	cycleCount = 0
 	var tpl *textwire.Template
 	var outs []string
 	for _, opS := range ops {
@@ -390,6 +471,10 @@ func implOp(op *term, tpl **textwire.Template, cwd string) string {
 			opt = &config.Config{TemplateDir: unhx(a[1].atom), TemplateExt: unhx(a[2].atom), ErrorPagePath: unhx(a[3].atom), DebugMode: a[4].atom == "1"}
 		}
 		t, err := textwire.NewTemplate(opt)
+		if opt != nil {
+			// the configuration struct is the caller's: what happens to it afterwards is no business of the library
+			opt.TemplateDir, opt.TemplateExt, opt.ErrorPagePath, opt.DebugMode = "scribbled/over", ".zz", "nosuch-error-page", !opt.DebugMode
+		}
 		if err != nil {
 			*tpl = nil
 			if t != nil {
